@@ -5,6 +5,7 @@
   Gen/Games.lean       — the definitions table and the game modules (C14, C20)
   Gen/Views.lean       — the accessor bodies of every CommonResponse / CommonPlayer impl (C15)
   Gen/Consts.lean      — constants and small tables: request bytes, packet kinds, buffer sizes, ports, field names … (Cnn_consts)
+  Gen/Arms.lean        — the arms of games/query.rs, the conversion impls, the game_query_fn! bodies (tools/xlate_arms.py; C14_arms)
 
 Each generated file is only rewritten when its content changes (so that lake does not rebuild needlessly)."""
 import os, re, sys, zlib
@@ -1624,6 +1625,10 @@ def gen_root():
 if __name__ == "__main__":
     sites = gen_alloc_sites()
     consts, const_errors = gen_consts()
+    sys.path.insert(0, os.path.dirname(os.path.abspath(__file__)))
+    import xlate_arms
+    # Gen/Arms.lean: the arms of games/query.rs, the conversion impls and the game_query_fn! bodies (fails loudly)
+    const_errors += xlate_arms.gen_arms(V, SRC, GEN, csrc, write_if_changed)
     gen_root()
     gen_games()
     vs = gen_views()
